@@ -314,6 +314,14 @@ where
         //let state = self.state.lock().unwrap().clone();
 
         let mut reduce_action = true;
+        #[cfg(rs_store_verif)]
+        crate::verif::pt(
+            "mw.check",
+            crate::verif::store_id(&self.metrics),
+            0,
+            None,
+            0,
+        );
         if !self.middlewares.lock().unwrap().is_empty() {
             let middleware_start = Instant::now();
             let mut middleware_executed = 0;
@@ -401,6 +409,14 @@ where
         let effect_start = Instant::now();
         self.metrics.effect_issued(effects.len());
 
+        #[cfg(rs_store_verif)]
+        crate::verif::pt(
+            "mw.check",
+            crate::verif::store_id(&self.metrics),
+            0,
+            None,
+            0,
+        );
         if !self.middlewares.lock().unwrap().is_empty() {
             let middleware_start = Instant::now();
             let mut middleware_executed = 0;
@@ -479,6 +495,14 @@ where
         self.metrics.state_notified(Some(next_state));
 
         let mut need_notify = true;
+        #[cfg(rs_store_verif)]
+        crate::verif::pt(
+            "mw.check",
+            crate::verif::store_id(&self.metrics),
+            0,
+            None,
+            0,
+        );
         if !self.middlewares.lock().unwrap().is_empty() {
             let middleware_start = Instant::now();
             let mut middleware_executed = 0;
